@@ -60,10 +60,10 @@ IDX = list(range(32))     # IDX[symbolic int] -> concrete int (used as cache key
 HOSTPATS = [r"a\.com", r".*", r"(.*\.)?a\.com", r"a.com"]
 # (Host header value, host name the patterns are matched against: lower-cased, port removed)
 HOSTS = [("a.com", "a.com"), ("A.com:80", "a.com"), ("b.a.com", "b.a.com"), ("axcom", "axcom"),
-         ("xa.com:8", "xa.com")]
+         ("xa.com:8", "xa.com"), ("a.com.evil", "a.com.evil")]
 
 ALPHA_ESC = "/ab.+%25Ff1c"     # pattern alphabet + "%" + some hex digits (valid and invalid escapes)
-ALPHA_GRP = "/ab%2F5c"         # smaller alphabet for patterns with groups (every group value is decoded)
+ALPHA_GRP = "/ab%2F+c"         # smaller alphabet for patterns with groups (every group value is decoded)
 ALPHA_LIT = "/ab."             # small alphabet: every group value gets realised by the decoder
 
 
@@ -249,8 +249,8 @@ def pre_host(hp: int, hi: int, path: str) -> bool:
     units=["routing.RuleRouter.__init__/add_rules/find_handler/get_target_delegate (nested Router, callable)",
            "routing.HostMatches.__init__/match", "routing.PathMatches.match",
            "httputil.HTTPServerRequest.__init__ (host_name: lower-case, port removed)"],
-    stubs=["host pattern by symbolic index from HOSTPATS (4), Host header from HOSTS (5: exact, upper-case+port, "
-           "sub-domain, dot-wildcard victim 'axcom', suffix victim 'xa.com:8'); path over '/ab'",
+    stubs=["host pattern by symbolic index from HOSTPATS (4), Host header from HOSTS (6: exact, upper-case+port, "
+           "sub-domain, dot-wildcard victim 'axcom', prefix victim 'xa.com:8', suffix victim 'a.com.evil'); path over '/ab'",
            "routers built by the real constructors at import; expected host names written by hand"],
     outside=["Host values outside the pool", "DefaultHostMatches / default_host"],
 )
